@@ -415,6 +415,10 @@ MENUS = {
 }
 
 
+# kinds for which an explicitly written zero is a meaningful value (an explicit 0 must not be read as "not given")
+ZERO_OK = {"k1", "k1s", "angle", "edge", "tilt", "hgap", "fint", "kick", "volt", "phi0", "ks", "g"}
+
+
 def gen_value(rng, kind: str) -> list:
     """an expression tree for a value of the given kind (literal; expressions are wrapped around it later)"""
     if kind == "str":
@@ -434,6 +438,8 @@ def gen_value(rng, kind: str) -> list:
     if kind == "int":
         return ["n", str(int(rng.integers(1, 40)))]
     m = MENUS[kind]
+    if kind in ZERO_OK and rng.random() < 0.08:
+        return ["n", "0"] if rng.random() < 0.5 else ["n", "0.0"]
     if rng.random() < 0.7:
         v = m[int(rng.integers(len(m)))]
     else:
